@@ -39,7 +39,7 @@ const (
 
 type c6stmt struct {
 	kind   c6kind
-	c1, c2 int        // condition indexes
+	c1, c2 int         // condition indexes
 	blocks [][]*c6stmt // A, B, C / cases..., default last if hasDef
 	nCases int
 	hasDef bool
@@ -56,7 +56,9 @@ type c6gen struct {
 	blocks map[string][][]*c6stmt
 }
 
-func (g *c6gen) key(size int, c c6ctx) string { return fmt.Sprintf("%d/%v/%v", size, c.inLoop, c.inSwitch) }
+func (g *c6gen) key(size int, c c6ctx) string {
+	return fmt.Sprintf("%d/%v/%v", size, c.inLoop, c.inSwitch)
+}
 
 // allBlocks: every block of 1..2 statements with exactly `size` nodes in total.
 func (g *c6gen) allBlocks(size int, c c6ctx) [][]*c6stmt {
